@@ -459,6 +459,21 @@ class C16(Prop):
                         extra['faults'].append([n, 'other', type(ex).__name__])
                     finally:
                         st.read_fault = None
+            if created:
+                # fetching a stored recording / its metadata while the store answers with an error: the error reaches the caller,
+                # it is not turned into "no such recording"
+                extra['getfault'] = []
+                for call in (cassette.get_recording, cassette.get_recording_metadata):
+                    st.read_fault = 1
+                    try:
+                        call(created[0])
+                        extra['getfault'].append('returned')
+                    except fake_s3.ReadFault:
+                        extra['getfault'].append('raised')
+                    except Exception as ex:
+                        extra['getfault'].append(type(ex).__name__)
+                    finally:
+                        st.read_fault = None
             if len(ws) == 2:
                 it_a = iter(look(ws[0]))
                 first = next(it_a, None)
@@ -552,6 +567,10 @@ class C16(Prop):
             elif f[1] == 'ids' and f[2] != ex['seq'][0]:
                 fails.append('window %s with read request %d answered by an error: the lookup returned %r without raising - it returns '
                              '%r when the store is healthy' % (self.describe(ws[0]), f[0], f[2], ex['seq'][0]))
+        for what, got in zip(('get_recording', 'get_recording_metadata'), ex.get('getfault') or []):
+            if got != 'raised':
+                fails.append('%s of a stored recording while the store answers the read with an error: %s (the error must reach the caller)'
+                             % (what, got))
         if ex.get('interleaved'):
             a, b = ex['interleaved']
             if a != ex['seq'][0] or b != ex['seq'][1]:
